@@ -100,6 +100,9 @@ def coq_make(targets, timeout=2400):
     """full .vo build of the given targets (never -vos); returns (ok, log)"""
     coq_makefile()
     rc, out, dt = sh(['make', '-j16'] + targets, cwd=COQ, timeout=timeout)
+    if rc != 0 and 'not found in the current environment' in out or 'inconsistent assumptions' in out:
+        # a freshly generated dependency file can be missed by the first parallel run
+        rc, out, dt = sh(['make', '-j16'] + targets, cwd=COQ, timeout=timeout)
     return rc == 0, out
 
 
@@ -203,10 +206,11 @@ def ocaml_build():
     for f in os.listdir(os.path.join(ROOT, 'ocaml')):
         if f.endswith('.ml'):
             open(os.path.join(ML, f), 'w').write(open(os.path.join(ROOT, 'ocaml', f)).read())
-    for drv, mods in DRIVERS.items():
+    for drv, (mods, extra) in DRIVERS.items():
         srcs = ['common.ml']
         for m in mods:
             srcs += [m + '.mli', m + '.ml'] if os.path.exists(os.path.join(ML, m + '.mli')) else [m + '.ml']
+        srcs += [x + '.ml' for x in extra]
         srcs.append(drv + '.ml')
         rc, out, _ = sh(['ocamlfind', 'ocamlopt', '-O2', '-w', '-a'] + srcs + ['-o', drv], cwd=ML, timeout=900)
         log += out
@@ -216,7 +220,7 @@ def ocaml_build():
     return True, log
 
 
-DRIVERS = {'driver_store': ['m_storeq']}
+DRIVERS = {'driver_store': (['m_storeq'], []), 'driver_engine': (['m_engine'], ['json', 'engine_io'])}
 
 
 def drivers():
